@@ -1434,6 +1434,34 @@ def replay(rp, vsim, model):
         for nme in (NAME, NAME + ".old"):
             if os.path.exists(os.path.join(d.path, nme)):
                 print("load", nme, try_load_(vsim, d, nme))
+    elif rp["kind"] in ("load-session", "large-step", "cross-load"):
+        if rp["kind"] == "large-step":
+            sess = {"first": rp["step"], "pre": 3, "saves": ["text", "binary"]}
+            open(os.path.join(d.path, "r.scn"), "w").write(scenario(sess, distinct=True))
+            V.sh([vsim, "r.scn"], cwd=d.path, timeout=120)
+            nm = "ref%d.colvars.state" % (0 if rp["format"] == "text" else 1)
+            print("saved at step", version_of(sess, 0 if rp["format"] == "text" else 1), "->", try_load_(vsim, d, nm, "base", False, rp.get("how", "file")))
+        elif rp["kind"] == "cross-load":
+            sess = {"first": 0, "pre": 6, "saves": ["text", "binary"]}
+            if rp["state_of"] != "base":
+                sess["config"] = rp["state_of"]
+            refs, chunking, rel = reference(vsim, d, sess)
+            open(os.path.join(d.path, "dmg.colvars.state"), "wb").write(refs[0] if rp["format"] == "text" else refs[1])
+            print("state of", rp["state_of"], "into", rp["into"], "->", try_load_(vsim, d, "dmg.colvars.state", rp["into"]))
+        else:
+            cfgname = rp["config"]
+            sess = {"first": 0, "pre": 6, "saves": ["text", "binary"]}
+            if cfgname != "base":
+                sess["config"] = cfgname
+            refs, chunking, rel = reference(vsim, d, sess)
+            data = refs[0] if rp["format"] == "text" else refs[1]
+            for i, c in enumerate(rp["cuts"]):
+                open(os.path.join(d.path, "dmg%d.colvars.state" % i), "wb").write(data[:c])
+            open(os.path.join(d.path, "dmg4.colvars.state"), "wb").write(data)
+            open(os.path.join(d.path, "good.colvars.state"), "wb").write(data)
+            open(os.path.join(d.path, "q.scn"), "w").write(rp["scenario"] + "\n")
+            rc, out, err = V.sh(["timeout", "-s", "KILL", "30", vsim, "q.scn"], cwd=d.path, timeout=60)
+            print("rc", rc, re.findall(r"LOAD err=\S+ it=-?\d+", out), "(dmg4 is the intact state here: the flipped bit is not replayed)")
     elif rp["kind"] == "corrupt-count":
         cfgname = rp.get("config", "base")
         sess = {"first": 0, "pre": 6, "saves": ["text", "binary"]}
